@@ -94,6 +94,21 @@ CLAIMED = {
         "operation sequences and real-thread schedules are not decided.",
         design_ref="DESIGN.md §4 C09",
     ),
+    "C11": dict(
+        technique=TECH + "guard-table dominance on all four verification paths, dataflow provenance of the "
+        "digested octets, array-width extraction of digest inputs, error-variant to RCODE coverage",
+        text="Decides structural necessary conditions of C11: ClientTransaction::answer, "
+        "ClientSequence::answer_first/answer_subsequent and SigningContext::server_request reach remove_tsig/Ok "
+        "only through the success edges of TSIG extraction+key check, compare_signatures and the time check; "
+        "the MAC is computed over the header copy with the original ID restored and ARCOUNT-1 followed by "
+        "message[12..tsig.start], and compared with the record's MAC; compare_signatures uses min_mac_len as "
+        "truncation floor and a constant-time comparison only; TSIG must be last and unique; the unsigned-run "
+        "counter is a guarded increment (<100) reset on signed messages and checked by done(); digest input "
+        "widths equal wire widths (other data 6 == announced Other Len); every ValidationError variant "
+        "compare_signatures can return is mapped to its RFC 8945 RCODE. MAC values and multi-message chaining "
+        "values are not decided.",
+        design_ref="DESIGN.md §4 C11",
+    ),
     "C17": dict(
         technique=TECH + "finite decision-tree enumeration of Serial::partial_cmp against the RFC 1982 "
         "table, guard dominance for add, who-may-compare-raw audit of all serial/timestamp uses",
@@ -212,7 +227,7 @@ def main():
         print("MANIFEST.json written (jsonschema not available in this interpreter)")
 
 
-SOURCE_COMMITS = ["6d017b8", "5bee0e2", "d442263", "1972f03", "e564cac", "7c5564a", "eac9679", "3d7d923", "6138459"]
+SOURCE_COMMITS = ["6d017b8", "5bee0e2", "d442263", "1972f03", "e564cac", "7c5564a", "eac9679", "3d7d923", "6138459", "e52828b", "7010af2"]
 
 if __name__ == "__main__":
     main()
